@@ -432,3 +432,31 @@ func (x *Exec) loopBackEdge(fr *Frame, st *State, h *ssa.BasicBlock, ord int) {
 }
 
 var _ = strings.TrimSpace
+
+// closurePre: a closure whose contract has `requires` over its captured
+// variables must have them established where the closure is created.
+func (x *Exec) closurePre(fr *Frame, st *State, c *Closure) {
+	ctr := x.contractFor(c.Fn)
+	if ctr == nil || len(ctr.Requires) == 0 {
+		return
+	}
+	env := &Env{x: x, st: st, vars: map[string]Val{}, pkg: x.pkgOf(c.Fn)}
+	for i, fv := range c.Fn.FreeVars {
+		if i < len(c.Bindings) {
+			T := fv.Type().(*types.Pointer).Elem()
+			env.vars[fv.Name()] = x.load(st, x.locOfPointer(st, c.Bindings[i], T), T)
+		}
+	}
+	for _, cl := range ctr.Requires {
+		mentionsParam := false
+		for _, p := range c.Fn.Params {
+			if strings.Contains(cl.Src, p.Name()) {
+				mentionsParam = true
+			}
+		}
+		if mentionsParam {
+			continue // about the arguments, checked at call sites
+		}
+		x.oblige(st, "CALL", fmt.Sprintf("closure-pre(%s: %s)", FuncKey(c.Fn), cl.Src), x.evalBool(env, cl.Expr), "precondition of a closure over its captured variables, at creation")
+	}
+}
